@@ -17,13 +17,18 @@ not contested among the producers of `o` (auto-inference).  `Reach` is the induc
 reflexive-transitive closure; `HG.Build.reaches_iff` proves the fuel-bounded search equal to it.
 
 Statements that had to follow the code rather than the English of the property:
-* the type clause ranges over EVERY edge of the built graph that carries value names — data edges and
-  the ordering edges `_add_ordering_edges` labels with the awaited name (`_validate_types` does not
-  look at the edge type); consequently a valid graph with an `emit`/`wait_for` pair is rejected in
-  strict mode (`strict_waitfor_rejected` below, reproduced on the real constructor);
+* the type clause ranges over every NON-ORDERING edge of the built graph that carries value names, i.e.
+  the data edges; the ordering edges `_add_ordering_edges` labels with the awaited name are skipped
+  (`edge_type == "ordering"`: no value reaches a parameter through them).  Before the repair "strict
+  typing skips ordering edges" `_validate_types` did not look at the edge type and every valid strict
+  graph with an `emit`/`wait_for` pair was rejected (`strict_wait_for_witness`,
+  `strict_waitfor_rejected` below: the pre-repair check `chkTypesAllEdges` against the repaired model);
 * only the FIRST producer of a name gets a data edge, so in strict mode the annotation of a second
   (mutually exclusive) producer is never compared (`strict_second_producer_unchecked`);
-* names of graph nodes and of THEIR outputs are exempt from the identifier rule;
+* the NAME of a graph node is exempt from the identifier rule (it follows the graph-name rule); its
+  OUTPUT names are not — before the repair "output names of a nested graph are validated" they were
+  skipped together with the name (`graph_node_output_name_witness`, `graph_node_output_names_unchecked`:
+  the pre-repair check `chkIdentifiersSkipGraph` against the repaired model);
 * the namespace-collision rule looks at the LAST producer of the colliding name only;
 * "an interrupt inside a `map_over` graph node" means an `InterruptNode` DIRECTLY inside the wrapped
   graph (`Graph.has_interrupts`); `innerInterrupts` is that flag. -/
@@ -46,11 +51,12 @@ theorem classify_ok_iff (b : BuildInput) : classify b = "ok" ↔ WellFormed b :=
   | error e => cases e <;> simp [BuildErr.className]
 
 /-- the English of the type clause: in strict mode every DATA edge of an accepted graph is annotated on
-both sides with compatible types (the model's clause is stronger: every edge carrying value names) -/
+both sides with compatible types (the model's clause says: every non-ordering edge carrying value
+names; control edges carry none) -/
 theorem typed_data_edges (b : BuildInput) (h : buildGraph b = .ok ()) (hs : b.strict = true) (e : Edge)
-    (he : e ∈ graphEdges b) (_hk : e.kind = .data) (v : Name) (hv : v ∈ e.values) :
+    (he : e ∈ graphEdges b) (hk : e.kind = .data) (v : Name) (hv : v ∈ e.values) :
     ∃ to ti, outType b e.src v = some to ∧ inType b e.dst v = some ti ∧ compat to ti = true :=
-  (sound b h).typed hs e he v hv
+  (sound b h).typed hs e he (by rw [hk]; decide) v hv
 
 /-- the fuel-bounded reachability used for `Mutex` / `Ordered` is the reflexive-transitive closure -/
 theorem reaches_iff_reach (V : List Name) (adj : Name → Name → Bool) (a c : Name) :
@@ -114,11 +120,12 @@ theorem flaw_gate_self_loop (b : BuildInput) (g : NodeD) (hg : g ∈ b.nodes) (h
 
 theorem flaw_illegal_node_name (b : BuildInput) (nd : NodeD) (hnd : nd ∈ b.nodes) (hk : nd.kind ≠ .graph)
     (hbad : ¬ LegalName nd.name) : buildGraph b ≠ .ok () :=
-  fun h => hbad ((sound b h).legalNames nd hnd hk).1
+  fun h => hbad (((sound b h).legalNames nd hnd).1 hk)
 
-theorem flaw_illegal_output_name (b : BuildInput) (nd : NodeD) (hnd : nd ∈ b.nodes) (hk : nd.kind ≠ .graph)
+/-- ANY node, nested-graph nodes included (the repair "output names of a nested graph are validated") -/
+theorem flaw_illegal_output_name (b : BuildInput) (nd : NodeD) (hnd : nd ∈ b.nodes)
     (o : Name) (ho : o ∈ nd.outputs) (hbad : ¬ LegalName o) : buildGraph b ≠ .ok () :=
-  fun h => hbad (((sound b h).legalNames nd hnd hk).2 o ho)
+  fun h => hbad (((sound b h).legalNames nd hnd).2 o ho)
 
 theorem flaw_reserved_name (b : BuildInput) (nd : NodeD) (hnd : nd ∈ b.nodes) (hname : nd.name = "END") :
     buildGraph b ≠ .ok () :=
@@ -217,22 +224,22 @@ theorem flaw_edge_value_not_input (b : BuildInput) (es : List (Name × Name × O
     have : dn' = dn := node_eq_of_name_eq w.uniqueNames hdn' hdn (hname'.trans hname.symm)
     exact hbad (this ▸ (hval vs hvs v hv).2)
 
-/-- strict mode, ANY edge of the built graph, ANY value on it: incompatible annotations -/
+/-- strict mode, ANY non-ordering edge of the built graph, ANY value on it: incompatible annotations -/
 theorem flaw_type_mismatch (b : BuildInput) (hs : b.strict = true) (e : Edge) (he : e ∈ graphEdges b)
-    (v : Name) (hv : v ∈ e.values) (to ti : Ty) (ho : outType b e.src v = some to)
+    (hk : e.kind ≠ .ordering) (v : Name) (hv : v ∈ e.values) (to ti : Ty) (ho : outType b e.src v = some to)
     (hi : inType b e.dst v = some ti) (hc : compat to ti = false) : buildGraph b ≠ .ok () :=
   fun h => by
-    obtain ⟨to', ti', ho', hi', hc'⟩ := (sound b h).typed hs e he v hv
+    obtain ⟨to', ti', ho', hi', hc'⟩ := (sound b h).typed hs e he hk v hv
     rw [ho] at ho'; rw [hi] at hi'
     cases ho'; cases hi'
     rw [hc] at hc'; cases hc'
 
-/-- strict mode: a missing annotation on either side -/
+/-- strict mode: a missing annotation on either side of a non-ordering edge -/
 theorem flaw_missing_annotation (b : BuildInput) (hs : b.strict = true) (e : Edge) (he : e ∈ graphEdges b)
-    (v : Name) (hv : v ∈ e.values) (hmiss : outType b e.src v = none ∨ inType b e.dst v = none) :
-    buildGraph b ≠ .ok () :=
+    (hk : e.kind ≠ .ordering) (v : Name) (hv : v ∈ e.values)
+    (hmiss : outType b e.src v = none ∨ inType b e.dst v = none) : buildGraph b ≠ .ok () :=
   fun h => by
-    obtain ⟨to', ti', ho', hi', _⟩ := (sound b h).typed hs e he v hv
+    obtain ⟨to', ti', ho', hi', _⟩ := (sound b h).typed hs e he hk v hv
     rcases hmiss with hm | hm
     · rw [hm] at ho'; cases ho'
     · rw [hm] at hi'; cases hi'
@@ -243,15 +250,15 @@ theorem flaw_type_mismatch_consumer (b : BuildInput) (hs : b.strict = true) (hx 
     (nd : NodeD) (hnd : nd ∈ b.nodes) (p s : Name) (hp : p ∈ nd.inputs)
     (hsrc : firstSource b.nodes p = some s) (to ti : Ty) (ho : outType b s p = some to)
     (hi : inType b nd.name p = some ti) (hc : compat to ti = false) : buildGraph b ≠ .ok () := by
-  obtain ⟨e, he, h1, h2, h3⟩ := graphEdges_hasVal_auto hx hnd hp hsrc
-  exact flaw_type_mismatch b hs e he p h3 to ti (h1 ▸ ho) (h2 ▸ hi) hc
+  obtain ⟨e, he, hk, h1, h2, h3⟩ := graphEdges_hasVal_auto hx hnd hp hsrc
+  exact flaw_type_mismatch b hs e he (by rw [hk]; decide) p h3 to ti (h1 ▸ ho) (h2 ▸ hi) hc
 
 theorem flaw_missing_annotation_consumer (b : BuildInput) (hs : b.strict = true) (hx : b.explicitEdges = none)
     (nd : NodeD) (hnd : nd ∈ b.nodes) (p s : Name) (hp : p ∈ nd.inputs)
     (hsrc : firstSource b.nodes p = some s)
     (hmiss : outType b s p = none ∨ inType b nd.name p = none) : buildGraph b ≠ .ok () := by
-  obtain ⟨e, he, h1, h2, h3⟩ := graphEdges_hasVal_auto hx hnd hp hsrc
-  exact flaw_missing_annotation b hs e he p h3 (h1 ▸ h2 ▸ hmiss)
+  obtain ⟨e, he, hk, h1, h2, h3⟩ := graphEdges_hasVal_auto hx hnd hp hsrc
+  exact flaw_missing_annotation b hs e he (by rw [hk]; decide) p h3 (h1 ▸ h2 ▸ hmiss)
 
 /-! ## 4. the repaired graph is accepted -/
 
@@ -348,17 +355,48 @@ example : ¬ ∃ g : Built, g.input = exConflict := rejected_never_runs exConfli
 
 /-! ## surprising behaviour of the code, as facts of the model (each replayed on the real constructor) -/
 
-/-- strict mode rejects a VALID graph: `a` emits `done`, `b` waits for it; the ordering edge carries
-the value name `done`, `_validate_types` asks for its annotations, there are none by construction -/
+/-- BEFORE the repair "strict typing skips ordering edges" strict mode rejected a VALID graph: `a` emits
+`done`, `c` waits for it; the ordering edge carries the value name `done`, the pre-repair
+`_validate_types` (`chkTypesAllEdges`, constructor `buildGraphAllEdges`) asked for its annotations, there are none by construction.  The
+repaired constructor accepts the graph, strict or not. -/
 theorem strict_waitfor_rejected :
     let a : NodeD := { mkNode "a" .fn ["x"] ["y"] with emits := ["done"] }
     let c : NodeD := { mkNode "c" .fn ["q"] ["z"] with waitFor := ["done"] }
     let tyIn : AL (AL Ty) := [("a", [("x", .cls "int")]), ("c", [("q", .cls "int")])]
     let tyOut : AL (AL Ty) := [("a", [("y", .cls "int")]), ("c", [("z", .cls "int")])]
-    buildGraph { nodes := [a, c], strict := true, inTypes := tyIn, outTypes := tyOut }
+    buildGraphAllEdges { nodes := [a, c], strict := true, inTypes := tyIn, outTypes := tyOut }
         = .error (.missingOutputAnnotation "a" "done") ∧
+      buildGraphAllEdges { nodes := [a, c], strict := false, inTypes := tyIn, outTypes := tyOut } = .ok () ∧
+      buildGraph { nodes := [a, c], strict := true, inTypes := tyIn, outTypes := tyOut } = .ok () ∧
       buildGraph { nodes := [a, c], strict := false, inTypes := tyIn, outTypes := tyOut } = .ok () := by
-  decide
+  exact ⟨by decide, by decide, buildGraph_ok_of_simple (by decide), by decide⟩
+
+/-- known as the defect repaired by the fix "strict typing skips ordering edges".  The producer `p`
+(`x : int → a : int`, emits `done`) and the node `r` (`q : int → z : int`) that only WAITS for `done`:
+no data edge between them (`x` and `q` are fed from outside), every data parameter and output annotated.
+The built graph has the single edge `p → r`, an ordering edge labelled `done`.  The constructor accepts
+the graph; the pre-repair type check (`chkTypesAllEdges`, every edge with value names) reports a missing
+annotation for it — the emit name `done` has no output type — and so the pre-repair constructor
+`buildGraphAllEdges` rejects it. -/
+theorem strict_wait_for_witness :
+    let p : NodeD := { mkNode "p" .fn ["x"] ["a"] with emits := ["done"] }
+    let r : NodeD := { mkNode "r" .fn ["q"] ["z"] with waitFor := ["done"] }
+    let b : BuildInput :=
+      { nodes := [p, r], strict := true,
+        inTypes := [("p", [("x", .cls "int")]), ("r", [("q", .cls "int")])],
+        outTypes := [("p", [("a", .cls "int")]), ("r", [("z", .cls "int")])] }
+    graphEdges b = [⟨"p", "r", .ordering, ["done"]⟩] ∧
+      buildGraph b = .ok () ∧ classify b = "ok" ∧
+      chkTypesAllEdges b = some (.missingOutputAnnotation "p" "done") ∧
+      buildGraphAllEdges b = .error (.missingOutputAnnotation "p" "done") ∧
+      classifyAllEdges b = "missing_annotation" := by
+  intro p r b
+  have hok : buildGraph b = .ok () := buildGraph_ok_of_simple (by decide)
+  exact ⟨rfl, hok, (classify_ok_iff b).mpr (sound b hok), by decide, by decide, by decide⟩
+
+/-- the repair "strict typing skips ordering edges" never turns an accepted graph into a rejected one -/
+theorem allEdges_accepted_still_accepted (b : BuildInput) (h : buildGraphAllEdges b = .ok ()) :
+    buildGraph b = .ok () := buildGraph_ok_of_allEdges h
 
 /-- strict mode does not look at the second of two exclusive producers: `right` returns `str` into
 `sink(r : int)` and the graph is accepted -/
@@ -367,9 +405,31 @@ theorem strict_second_producer_unchecked :
       ("right", [("r", .cls "str")]), ("sink", [("out", .cls "int")])] } = .ok () :=
   buildGraph_ok_of_simple (by decide)
 
-/-- the identifier rule skips graph nodes together with their outputs -/
+/-- BEFORE the repair "output names of a nested graph are validated" the identifier rule skipped graph
+nodes together with their outputs (`chkIdentifiersSkipGraph`, constructor `buildGraphSkipGraph`); the repaired rule still exempts the NAME
+of a graph node (`my-graph` is fine) but rejects its first illegal output -/
 theorem graph_node_output_names_unchecked :
-    buildGraph { nodes := [mkNode "my-graph" .graph ["x"] ["not valid!", "class"]] } = .ok () := by
+    buildGraphSkipGraph { nodes := [mkNode "my-graph" .graph ["x"] ["not valid!", "class"]] } = .ok () ∧
+      buildGraph { nodes := [mkNode "my-graph" .graph ["x"] ["not valid!", "class"]] }
+        = .error (.invalidOutputName "my-graph" "not valid!") ∧
+      buildGraph { nodes := [mkNode "my-graph" .graph ["x"] ["valid", "cls"]] } = .ok () := by
+  decide
+
+/-- the repair "output names of a nested graph are validated" never accepts a graph the pre-repair
+constructor rejected -/
+theorem accepted_was_accepted_skipGraph (b : BuildInput) (h : buildGraph b = .ok ()) :
+    buildGraphSkipGraph b = .ok () := buildGraphSkipGraph_ok_of h
+
+/-- known as the defect repaired by the fix "output names of a nested graph are validated"
+(`inner.as_node().with_outputs(y="for")`): a nested-graph node `sub` whose output is named `for`, a
+Python keyword.  The repaired identifier check rejects it (and so does the constructor, with the error
+class of an illegal name); the pre-repair check, which `continue`d on graph nodes, accepts it, and so
+does the pre-repair constructor `buildGraphSkipGraph`. -/
+theorem graph_node_output_name_witness :
+    let b : BuildInput := { nodes := [mkNode "src" .fn ["x"] ["a"], mkNode "sub" .graph ["a"] ["for"]] }
+    chkIdentifiers b = some (.keywordOutputName "sub" "for") ∧
+      buildGraph b = .error (.keywordOutputName "sub" "for") ∧ classify b = "illegal_name" ∧
+      chkIdentifiersSkipGraph b = none ∧ buildGraphSkipGraph b = .ok () ∧ classifySkipGraph b = "ok" := by
   decide
 
 end HG.C19s
